@@ -21,6 +21,31 @@ CLAIMED: dict[str, tuple[str, str, str, str]] = {
     ),
 }
 
+CLAIMED.update(
+    {
+        "C17": (
+            "MUST-PASS path queries on the statement CFG of every search loop + table/shape rules on counters and observer wiring",
+            "Decides the iteration-boundary protocol: every generate_tests search loop tests self.resources_left() as a top-level "
+            "conjunct, reaches after_search_iteration exactly once per iteration (through resolved self-method wrappers) and is "
+            "dominated by before_search_start; resources_left is a universal quantifier over the list the factory assigns; the three "
+            "counting conditions compare counter >= limit, increment only and unconditionally in their designated hook, reset at "
+            "search start; the factory registers every condition as search observer and, when it observes execution, with the "
+            "executor; executors notify observers before and after every execution. Wall-clock and memory conditions are not decided.",
+            "Trusts the CFG builder and static MRO. Does not decide how many test executions happen inside one iteration.",
+            "DESIGN.md §3 C17",
+        ),
+        "C34": (
+            "ONCE dataflow (consumption counting with materialisation and isinstance refinement) on the CFG + shape rules for index normalisation and order-preserving construction",
+            "Decides three structural clauses of the ordered-set contract: every Iterable parameter (and every element of *others) of "
+            "the ordered-set API is consumed at most once on any path unless materialised or proven re-iterable; __getitem__ normalises "
+            "negative indices before the positional comparison; `_items` and derived sets are only built from order-preserving "
+            "constructions and iteration goes over the backing dict. Element equality/hash semantics and full set algebra are not decided.",
+            "Trusts the CFG builder and the classification tables of materialising / non-consuming calls in sa/engine/dataflow.py.",
+            "DESIGN.md §3 C34",
+        ),
+    }
+)
+
 NOT_APPLICABLE: dict[str, str] = {
     "C06": "Correctness of the post-dominator/CDG construction on every code object is functional correctness of a graph "
     "algorithm; no shape of the code implies it and no sound static argument in reach bounds 'all code objects'.",
